@@ -205,6 +205,7 @@ func (v *VStruct) validate(structName string, value reflect.Value, isValidGather
 				case Either, BothEq:
 					v.vc.initValid2FieldsMap(&name2Value{
 						validName:  validName,
+						scope:      structName,
 						objName:    structName,
 						fieldName:  fieldInfo.name,
 						cusMsg:     cusMsg,
